@@ -22,6 +22,24 @@ CLAIMS = {
         'technique': 'CFG guard-dominance + reaching definitions + folded '
                      'registration tables (ast)',
     },
+    'C08': {
+        'text': 'Decides the accounting structure flow control depends on: '
+                'both data handlers accept only when len(data) <= advertised '
+                'window and the channel is open; the window is charged exactly '
+                'once between acceptance and delivery, already at acceptance '
+                '(so the check also fires while reading is paused); the sender '
+                'slices by min(window, pktsize), decreases its window by what '
+                'it sends, loops only while window remains, and its window '
+                'grows only by a received WINDOW_ADJUST; the peer packet size '
+                'is tested > 0 as finally stored; the advertised adjust equals '
+                'the growth of the local window (linear identity). Tests never '
+                'pause the reader while a peer overruns, nor send size 0.',
+        'note': TB + 'not decided: eventual delivery / deadlock freedom under '
+                'every pause/resume schedule (liveness); run-time arithmetic '
+                'beyond the linear identities.',
+        'technique': 'CFG guard-dominance, must-pass-through, reaching '
+                     'definitions, linear-form comparison, who-may-write (ast)',
+    },
 }
 
 PENDING = 'check not built yet in this session (planned, see DESIGN.md section 5)'
